@@ -93,6 +93,8 @@ var c01GenChar = []spg.CharRecipe{
 	{Length: 2, Allow: spg.Digits},
 	{Length: 3, AllowChars: "abc", RequireSets: []string{"a"}},
 	{Length: 2, AllowChars: "é語🙂xyz"},
+	{Length: 3, AllowChars: "x", RequireSets: []string{"ab", "bc"}},
+	{Length: 2, Allow: spg.Digits, Require: spg.Digits | spg.Ambiguous, ExcludeChars: "2346789"},
 }
 
 func c01PlanFor(tier string, seed uint64) c01Plan {
